@@ -275,6 +275,5 @@ def run(tier, seed):
 
 
 def replay(path):
-    j = json.load(open(path))
-    print(json.dumps(j, indent=1)[:3000])
-    return 1
+    import sys
+    return common.rerun(PROP, path, sys.modules[__name__])
